@@ -40,6 +40,7 @@ type Op struct {
 	B int    `json:"b,omitempty"` // connect/disconnect: named agent (index), -1 = an id the teamserver has never seen
 	F bool   `json:"f,omitempty"` // disconnect only: the Demon reports Removed = FALSE
 	R bool   `json:"r,omitempty"` // disconnect only: if the actor has children, B picks one of them (B mod #children, in universe order)
+	Q bool   `json:"q,omitempty"` // connect / reg only: part of a BULK run (scale histories): the event is delivered and its own post-condition checked, the invariants and the routing tasks are evaluated once at the end of the run (before the next event that is not part of it, and at the end of the history)
 }
 
 type Case struct {
@@ -48,6 +49,8 @@ type Case struct {
 	Existed bool     `json:"existed,omitempty"`
 	DB      string   `json:"db,omitempty"` // "fresh" | "existed" | "golden" (copy of testdata/golden-schema.db); "" = Existed decides
 	Shape   string   `json:"shape,omitempty"` // informative (label only): the shape the first connects of a large-universe history build
+	Scale   string   `json:"scale,omitempty"` // informative (label only), scale histories: the count that is driven to a threshold-adjacent value
+	Build   string   `json:"build,omitempty"` // informative (label only), scale histories: how the bulk is built
 	Ops     []Op     `json:"ops"`
 }
 
@@ -244,7 +247,7 @@ func invariants(w *pvx.World, after string, role func(int64) string, dormant map
 	}
 	for c, p := range o.parentOf {
 		if have[pvx.LinkRow{Parent: p, Child: c}] == 0 {
-			return o, core.V("db|missing-row|after="+after, "live link %08x -> %08x has no row in TS_Links (rows: %v)\n%s", p, c, rows, dump(w))
+			return o, core.V("db|missing-row|after="+after, "live link %08x -> %08x has no row in TS_Links (rows: %v)\n%s", p, c, showRows(rows), dump(w))
 		}
 	}
 	storedParents := map[int64][]int64{}
@@ -253,7 +256,7 @@ func invariants(w *pvx.World, after string, role func(int64) string, dormant map
 	}
 	for _, r := range rows { // in table order: deterministic
 		if ps := storedParents[r.Child]; len(ps) > 1 {
-			return o, core.V("db|two-stored-parents|who="+role(r.Child)+"|after="+after, "TS_Links names %d parents for %08x (%08x and %08x): at most one stored parent per agent; the next restart takes the first (rows: %v)\n%s", len(ps), r.Child, ps[0], ps[1], rows, dump(w))
+			return o, core.V("db|two-stored-parents|who="+role(r.Child)+"|after="+after, "TS_Links names %d parents for %08x (%08x and %08x): at most one stored parent per agent; the next restart takes the first (rows: %v)\n%s", len(ps), r.Child, ps[0], ps[1], showRows(rows), dump(w))
 		}
 	}
 	for _, r := range rows {
@@ -262,7 +265,7 @@ func invariants(w *pvx.World, after string, role func(int64) string, dormant map
 			continue
 		}
 		if !dormant[r] {
-			return o, core.V("db|stale-row|after="+after, "TS_Links holds (%08x,%08x) but that is not a live link (rows: %v)\n%s", r.Parent, r.Child, rows, dump(w))
+			return o, core.V("db|stale-row|after="+after, "TS_Links holds (%08x,%08x) but that is not a live link (rows: %v)\n%s", r.Parent, r.Child, showRows(rows), dump(w))
 		}
 	}
 	for r := range dormant {
@@ -277,11 +280,26 @@ func invariants(w *pvx.World, after string, role func(int64) string, dormant map
 	return o, nil
 }
 
+// showRows: the rows as %v prints them; beyond 90 rows only their number (dump lists the first and last 40).
+func showRows(rows []pvx.LinkRow) string {
+	if len(rows) > 90 {
+		return fmt.Sprintf("%d rows", len(rows))
+	}
+	return fmt.Sprintf("%v", rows)
+}
+
 func dump(w *pvx.World) string {
 	var b strings.Builder
 	b.WriteString("in-memory graph:\n")
-	for _, a := range w.TS.Agents.Agents {
+	total := len(w.TS.Agents.Agents)
+	for i, a := range w.TS.Agents.Agents {
 		if a == nil {
+			continue
+		}
+		if total > 90 && i >= 40 && i < total-40 { // scale histories: first and last 40 sessions
+			if i == 40 {
+				fmt.Fprintf(&b, "  ... %d sessions not shown ...\n", total-80)
+			}
 			continue
 		}
 		p := "-"
@@ -296,11 +314,20 @@ func dump(w *pvx.World) string {
 				ls = append(ls, l.NameID)
 			}
 		}
+		if len(ls) > 24 {
+			ls = append(ls[:24:24], fmt.Sprintf("... %d more", len(a.Pivots.Links)-24))
+		}
 		fmt.Fprintf(&b, "  %s active=%v parent=%s links=%v\n", a.NameID, a.Active, p, ls)
 	}
 	if rows, err := pvx.LinkRows(w.SQL); err == nil {
-		b.WriteString("TS_Links:")
-		for _, r := range rows {
+		fmt.Fprintf(&b, "TS_Links (%d rows):", len(rows))
+		for i, r := range rows {
+			if len(rows) > 90 && i >= 40 && i < len(rows)-40 {
+				if i == 40 {
+					b.WriteString(" ...")
+				}
+				continue
+			}
 			fmt.Fprintf(&b, " (%08x,%08x)", r.Parent, r.Child)
 		}
 		b.WriteString("\n")
@@ -417,12 +444,73 @@ func runCase(c Case, mode string) *core.Violation {
 		return v
 	}
 
+	// a task for every agent must be routable (PivotAddJob walks Parent to the root)
+	probe := func(what string) *core.Violation {
+		v := core.WithWatchdog(stepBudget, "task-after:"+what, func() *core.Violation {
+			ags := w.TS.Agents.Agents
+			for _, a := range ags {
+				// more than 8 sessions: only agents without links get a task.  The graph was just
+				// validated (Links <=> Parent, acyclic), so the walk from such an agent passes
+				// through every ancestor; a task per inner agent would repeat parts of the same
+				// walks at a cost cubic in the depth (one AES layer per hop).
+				if len(ags) > 8 && len(a.Pivots.Links) > 0 {
+					continue
+				}
+				reqID++
+				pvx.Outstanding(a, reqID, pvx.CmdSleep)
+			}
+			return nil
+		})
+		if v != nil && strings.HasPrefix(v.Sig, "hang|") {
+			release()
+		}
+		return v
+	}
+
+	// bulk runs (Op.Q, scale histories): the oracle is evaluated at the end of the run
+	stale, bulkLen := false, 0
+	checkpoint := func(step int) *core.Violation {
+		n := bulkLen
+		stale, bulkLen = false, 0
+		post, v := invariants(w, "bulk", noRole, dormant)
+		if v != nil {
+			v.Msg = fmt.Sprintf("checkpoint before step %d, after a run of %d bulk events: %s", step, n, v.Msg)
+			return v
+		}
+		pre = post
+		if v = probe("bulk"); v != nil {
+			v.Msg = fmt.Sprintf("queueing a task for every agent at the checkpoint before step %d, after a run of %d bulk events: %s", step, n, v.Msg)
+			return v
+		}
+		return nil
+	}
+
 	for step, op := range c.Ops {
 		if op.A < 0 || op.A >= len(c.IDs) {
 			continue
 		}
 		actorID := c.IDs[op.A]
 		actor := w.Agent(actorID)
+		if op.Q && (op.K == "connect" || op.K == "reg") {
+			if op.K == "connect" && actor == nil {
+				continue
+			}
+			if v := bulkEvent(w, c, op, actor); v != nil {
+				if strings.HasPrefix(v.Sig, "hang|") {
+					release()
+				}
+				v.Msg = fmt.Sprintf("step %d (%+v, bulk event %d of its run): %s", step, op, bulkLen+1, v.Msg)
+				return v
+			}
+			stale = true
+			bulkLen++
+			continue
+		}
+		if stale {
+			if v := checkpoint(step); v != nil {
+				return v
+			}
+		}
 		if op.K == "reopen" {
 			if err := w.Reopen(); err != nil {
 				return core.V("reopen|failed", "step %d: reopening the database file: %v", step, err)
@@ -567,30 +655,69 @@ func runCase(c Case, mode string) *core.Violation {
 			}
 		}
 
-		// a task for every agent must be routable (PivotAddJob walks Parent to the root)
-		v = core.WithWatchdog(stepBudget, "task-after:"+class, func() *core.Violation {
-			ags := w.TS.Agents.Agents
-			for _, a := range ags {
-				// more than 8 sessions: only agents without links get a task.  The graph was just
-				// validated (Links <=> Parent, acyclic), so the walk from such an agent passes
-				// through every ancestor; a task per inner agent would repeat parts of the same
-				// walks at a cost cubic in the depth (one AES layer per hop).
-				if len(ags) > 8 && len(a.Pivots.Links) > 0 {
-					continue
-				}
-				reqID++
-				pvx.Outstanding(a, reqID, pvx.CmdSleep)
-			}
-			return nil
-		})
-		if v != nil {
-			if strings.HasPrefix(v.Sig, "hang|") {
-				release()
-			}
+		if v = probe(class); v != nil {
 			v.Msg = fmt.Sprintf("queueing a task for every agent after step %d (%+v, %s): %s", step, op, class, v.Msg)
 			return v
 		}
 		pre = post
+	}
+	if stale {
+		return checkpoint(len(c.Ops))
+	}
+	return nil
+}
+
+// bulkEvent delivers one event of a bulk run (a connect or a registration) and checks the
+// post-condition of that event alone, from the session objects: a connect that names neither
+// the sender nor one of the agents found by following Parent from the sender (at most one
+// step per session) must leave the named agent with Parent == sender.  The invariants over
+// the whole graph and the table are evaluated at the end of the run.
+func bulkEvent(w *pvx.World, c Case, op Op, actor *agent.Agent) *core.Violation {
+	actorID := c.IDs[op.A]
+	if op.K == "reg" {
+		if actor != nil {
+			return nil
+		}
+		return core.WithWatchdog(stepBudget, "event:reg", func() *core.Violation {
+			k, iv := keyOf(op.A)
+			if !w.Register(actorID, k, iv, metaOf(op.A, actorID)) {
+				return core.V("harness|registration-not-acknowledged", "DEMON_INIT of %08x was not acknowledged", actorID)
+			}
+			return nil
+		})
+	}
+	cid, ci := uint32(unknownID), len(c.IDs)
+	if op.B >= 0 && op.B < len(c.IDs) {
+		cid, ci = c.IDs[op.B], op.B
+	}
+	class, above := "connect-new", false
+	if named := w.Agent(cid); named != nil {
+		switch {
+		case named.Pivots.Parent == actor:
+			class = "connect-again"
+		case named.Pivots.Parent != nil:
+			class = "connect-reparent"
+		default:
+			class = "connect-toplevel"
+		}
+		limit := len(w.TS.Agents.Agents) + 1
+		for p, n := actor, 0; p != nil && n <= limit; p, n = p.Pivots.Parent, n+1 {
+			if p == named {
+				above = true
+				break
+			}
+		}
+	}
+	v := core.WithWatchdog(stepBudget, "event:"+class, func() *core.Violation {
+		k, iv := keyOf(ci)
+		w.Callback(actor, 0, pvx.CmdPivot, pvx.ConnectBody(metaOf(ci, cid).InitPackage(cid, k, iv)))
+		return nil
+	})
+	if v != nil || above {
+		return v
+	}
+	if after := w.Agent(cid); after == nil || after.Pivots.Parent != actor {
+		return core.V("post|"+class+"|not-linked-to-sender", "after a successful SMB connect of %08x by %08x the parent of %08x is not %08x\n%s", cid, actorID, cid, actorID, dump(w))
 	}
 	return nil
 }
@@ -639,8 +766,9 @@ func (m *model) orphans() []int {
 // inner: the agents in memory that have a parent and at least one link, in universe order.
 func (m *model) inner() []int {
 	var out []int
+	cnt := m.linkCounts()
 	for _, x := range m.sortedKnown() {
-		if p, ok := m.parent[x]; ok && x < m.n && p < m.n && m.nlinks(x) > 0 {
+		if p, ok := m.parent[x]; ok && x < m.n && p < m.n && cnt[x] > 0 {
 			out = append(out, x)
 		}
 	}
@@ -698,12 +826,47 @@ func (m *model) root(x int) int { return m.up(x, len(m.parent)+1) }
 
 func (m *model) maxDepth() int {
 	d := 0
-	for x := range m.parent {
-		if v := m.depth(x); v > d {
+	for _, v := range m.depths() {
+		if v > d {
 			d = v
 		}
 	}
 	return d
+}
+
+// depths: the depth of every agent (by universe index, 0..n), in one pass over the forest.
+func (m *model) depths() []int {
+	dep := make([]int, m.n+1)
+	done := make([]bool, m.n+1)
+	var path []int
+	for x := range m.parent { // the result does not depend on the order
+		path = path[:0]
+		cur := x
+		for !done[cur] {
+			p, ok := m.parent[cur]
+			if !ok || len(path) > len(m.parent) {
+				done[cur] = true // a root
+				break
+			}
+			path = append(path, cur)
+			cur = p
+		}
+		d := dep[cur]
+		for i := len(path) - 1; i >= 0; i-- {
+			d++
+			dep[path[i]], done[path[i]] = d, true
+		}
+	}
+	return dep
+}
+
+// linkCounts: the number of links of every agent (by universe index, 0..n).
+func (m *model) linkCounts() []int {
+	cnt := make([]int, m.n+1)
+	for _, p := range m.parent {
+		cnt[p]++
+	}
+	return cnt
 }
 
 func (m *model) nlinks(p int) int {
@@ -753,6 +916,12 @@ type summary struct {
 	reopenAfterOrphanConnect          bool // a restart after one of the three above
 	lastKind                          string
 	lastInnerCut                      bool
+	// counts reached (scale histories)
+	maxLinks   int         // most links one agent had at any point
+	maxKnown   int         // most agents in memory at any point
+	reconn     map[int]int // accepted connects naming an agent that was already known, per agent
+	maxReconn  int
+	ancMaxDist int // greatest distance of an attempted cyclic connect
 }
 
 // step applies one event of the history to the model and records it in s.
@@ -810,6 +979,9 @@ func (m *model) step(op Op, s *summary) {
 			s.lastKind, s.lastInnerCut = "reg", false
 			s.classes["reg"]++
 			s.effective++
+			if len(m.known) > s.maxKnown {
+				s.maxKnown = len(m.known)
+			}
 		}
 		return
 	}
@@ -864,10 +1036,16 @@ func (m *model) step(op Op, s *summary) {
 			m.active[b] = true
 			m.parent[b] = op.A
 			m.rows[b] = op.A
+			if len(m.known) > s.maxKnown {
+				s.maxKnown = len(m.known)
+			}
 		case m.anc(b, op.A):
 			cl = "connect-ancestor"
 			s.ancc = true
 			d := m.dist(b, op.A)
+			if d > s.ancMaxDist {
+				s.ancMaxDist = d
+			}
 			switch {
 			case d >= 16:
 				s.ancFar = true
@@ -908,9 +1086,20 @@ func (m *model) step(op Op, s *summary) {
 			m.rows[b] = op.A
 			m.active[b] = true
 			delete(m.cut, b)
+			if s.reconn == nil {
+				s.reconn = map[int]int{}
+			}
+			s.reconn[b]++
+			if s.reconn[b] > s.maxReconn {
+				s.maxReconn = s.reconn[b]
+			}
 		}
-		if m.nlinks(op.A) >= 2 {
+		nl := m.nlinks(op.A)
+		if nl >= 2 {
 			s.secondLink = true
+		}
+		if nl > s.maxLinks {
+			s.maxLinks = nl
 		}
 		if cl != "connect-self" && cl != "connect-ancestor" && cl != "connect-again" {
 			if d := m.maxDepth(); d > s.maxDepth {
